@@ -70,6 +70,9 @@ type c18Case struct {
 	SmallWin bool `json:"small_window_big_frames,omitempty"`
 	// BigTable (client role): the server's first SETTINGS advertises HEADER_TABLE_SIZE=8192
 	BigTable bool `json:"handshake_table_8192,omitempty"`
+	// Status (server role): the status the handlers answer with (0: 200). One outside the static table (302) is the
+	// only response field the server stores in its dynamic table
+	Status int `json:"status,omitempty"`
 }
 
 // peerLimits tracks what the peer has told the endpoint.
@@ -259,7 +262,11 @@ func c18Server(cs c18Case) (*fw.Violation, *harness.Server) {
 		steps = append(steps, func() *fw.Violation {
 			for _, c := range h.Calls {
 				if c.Stream == id && !c.Returned {
-					h.Finish(c.Idx, harness.Resp{Status: 200, Headers: respHdr, Body: body})
+					status := 200
+					if cs.Status != 0 {
+						status = cs.Status
+					}
+					h.Finish(c.Idx, harness.Resp{Status: status, Headers: respHdr, Body: body})
 				}
 			}
 			if v := verify("response"); v != nil {
@@ -777,6 +784,21 @@ func runC18(c *fw.Ctx) {
 		for pa := 0; pa < 5; pa++ {
 			for pb := pa; pb < 5; pb++ {
 				do(c18Case{Role: role, Settings: []int{raise, lower}, At: []int{pa, pb}, BigHdr: true, BigBody: true, Two: true})
+			}
+		}
+	}
+	// the server stores :status in its table when it is not a static one: every table-size frame before / between
+	// two 302 responses
+	for a := range c18Alphabet {
+		if !strings.Contains(c18Alphabet[a].Name, "table") {
+			continue
+		}
+		for pa := 0; pa < 5; pa++ {
+			do(c18Case{Role: "server", Settings: []int{a}, At: []int{pa}, Two: true, Status: 302})
+			for b := range c18Alphabet {
+				if strings.Contains(c18Alphabet[b].Name, "table") && pa%2 == 0 {
+					do(c18Case{Role: "server", Settings: []int{a, b}, At: []int{pa, pa}, Two: true, Status: 302})
+				}
 			}
 		}
 	}
